@@ -17,6 +17,41 @@ W04 = {"gd": 4, "gd_qg": 3, "subgradient": 1, "ppa": 2, "operator": 4, "halpern"
        "bcd": 2, "linear": 3, "pgd": 1, "fw": 1, "inexact_prox": 1, "eps_subgradient": 1}
 
 
+INF = float("inf")
+# the same class of functions / operators written with another shipped class at the edge of its parameter range
+# (base class -> [(twin class, parameters as a function of the base's, reuse_gradient to keep)])
+PARAM_TWINS = {
+    "SmoothConvexFunction": [("SmoothStronglyConvexFunction", lambda p: {"mu": 0.0, "L": p["L"]}, None)],
+    "ConvexFunction": [("StronglyConvexFunction", lambda p: {"mu": 0.0}, None),
+                       ("SmoothConvexFunction", lambda p: {"L": INF}, False)],
+    "StronglyConvexFunction": [("SmoothStronglyConvexFunction", lambda p: {"mu": p["mu"], "L": INF}, False)],
+    "ConvexLipschitzFunction": [("SmoothConvexLipschitzFunction", lambda p: {"L": INF, "M": p["M"]}, False)],
+    "MonotoneOperator": [("StronglyMonotoneOperator", lambda p: {"mu": 0.0}, None),
+                         ("CocoerciveOperator", lambda p: {"beta": 0.0}, False)],
+    "NonexpansiveOperator": [("LipschitzOperator", lambda p: {"L": 1.0}, None)],
+    "CocoerciveOperator": [("CocoerciveStronglyMonotoneOperator", lambda p: {"mu": 0.0, "beta": p["beta"]}, None)],
+}
+
+
+def param_twin(ops, rng):
+    """Rewrite one leaf function of the model into an equivalent class at the edge of its parameter range."""
+    cands = [o for o in ops if o["op"] == "func" and o["cls"] in PARAM_TWINS and "reuse_gradient" not in o]
+    if not cands:
+        return None, None
+    fop = rng.choice(cands)
+    cls2, fn, reuse = rng.choice(PARAM_TWINS[fop["cls"]])
+    try:
+        params = fn(fop.get("params") or {})
+    except KeyError:
+        return None, None
+    new = dict(fop)
+    new["cls"] = cls2
+    new["params"] = params
+    if reuse is not None:
+        new["reuse_gradient"] = reuse
+    return [new if o is fop else o for o in ops], "%s=%s" % (fop["cls"], cls2)
+
+
 def produced(op):
     o = op.get("out")
     outs = []
@@ -168,7 +203,9 @@ class C04(Prop):
             "samples (by identity, never by list index; one cell per unordered pair for symmetric conditions); "
             "(extension, REAL) for classes documenting necessary-and-sufficient conditions the value is unchanged by "
             "a repeated query, a query through an aliased point, an unused query at a free point and an aliased "
-            "sample; for necessary-only classes it may only decrease; non-trivial = both legs reached the solver")
+            "sample; for necessary-only classes it may only decrease; (param-twin, REAL) a leaf class rewritten as another "
+            "shipped class at the edge of its parameter range (mu = 0, L = inf, beta = 0, L = 1) gives the same value; "
+            "non-trivial = both legs reached the solver")
     ASSUMPTIONS = ("necessary-only classes (value may decrease under extension): " + ", ".join(sorted(NECESSARY_ONLY)),
                    "REAL value comparison at 1e-4 relative, 1e-3 when an aliasing equality makes the SDP non-strictly feasible",
                    "'a finite primal value is attained by a real member' (construction of an interpolant) is not decided")
@@ -176,7 +213,7 @@ class C04(Prop):
                   "stub": ["solver in TAGGED runs", "sys.stdout"]}
 
     def generate(self, rng, tier, idx):
-        case = ["order", "order", "order-value", "extension", "order-resolve", "route"][idx % 6]
+        case = ["order", "order", "order-value", "extension", "order-resolve", "route", "param-twin"][idx % 7]
         w = W04
         if case == "order-resolve":
             # ConvexQG / RsiEb record a stationary point of their own *during* a solve when none is declared yet:
@@ -185,9 +222,21 @@ class C04(Prop):
         b = templates.build_model(rng, weights=w, n=rng.choice([1, 2, 2, 3]),
                                   template=("linear" if case == "extension" and rng.random() < 0.25 else None),
                                   decorations=[] if rng.random() < 0.7 else None)
+        if case == "param-twin":
+            # redraw until some leaf class of the model has a twin
+            for _ in range(8):
+                if any(o["op"] == "func" and o["cls"] in PARAM_TWINS and "reuse_gradient" not in o for o in b.ops):
+                    break
+                b = templates.build_model(rng, weights={"gd": 2, "subgradient": 2, "ppa": 3, "operator": 4, "halpern": 1,
+                                                        "pgd": 2, "fw": 1, "drs": 1, "tos": 1, "eps_subgradient": 1,
+                                                        "inexact_prox": 1},
+                                          n=rng.choice([1, 2, 2, 3]), decorations=[] if rng.random() < 0.7 else None)
         info = {k: v for k, v in b.info.items() if isinstance(v, (str, int, float))}
         info["P"] = b.P
         mode = "tagged" if case in ("order", "order-resolve") else "real"
+        if case == "param-twin":
+            # templates whose leaf classes have a twin
+            pass
         s = draw_solve(rng, b.P, "tau", peer_mode=mode, allow_mosek=False)
         s["cfg"]["mode"] = "dual"
         s["cfg"]["verbose"] = 0
@@ -202,6 +251,13 @@ class C04(Prop):
             plan["ext_kind"] = None
             plan["case"] = "order-value"
             plan["tag"] = plan["tag"].replace("route", "same-samples-through-c*f" if c else "route-none")
+        elif case == "param-twin":
+            alt, what = param_twin(b.ops, rng)
+            plan["alt"] = alt if alt is not None else shuffle_schedule(b.ops, rng)
+            plan["alt2"] = None
+            plan["ext_kind"] = None
+            plan["case"] = "order-value"
+            plan["tag"] = plan["tag"].replace("param-twin", "param-twin:" + str(what))
         elif case == "order-resolve":
             # the same declarations interleaved with an earlier solve: solve after a prefix of the (shuffled)
             # program, declare the rest, solve again; the last solve must see the same class rows as the program
